@@ -231,6 +231,16 @@ def fam_num(rng):
 
 def fam_flatten(rng):
     """C05: flatten(axis >= 1) concatenates, in order, the lists at that level; a missing list contributes nothing"""
+    if rng.random() < 0.2:
+        # a union of list types at the top (its contents are flattened separately and recombined)
+        members = [("list", ("num", "int64")), ("regular", ("num", "float64"), rng.randint(0, 2)),
+                   ("list", ("option", ("num", "int32"))), ("list", ("list", ("num", "bool")))]
+        rng.shuffle(members)
+        T = ("union", members[:rng.randint(2, 3)])
+        vals = [L.gen_value(rng, T) for _ in range(rng.randint(0, 5))]
+        lay = L.Enc(rng).encode(vals, T)
+        ref = R.flatten(vals, 1)
+        return Case("flatten 1 %s" % lay.tokens(), expect_value(ref, "flatten(axis=1) of the union array %r" % (vals,)), {"value": vals, "type": T})
     T, vals, lay, depth = _struct_case(rng)
     if depth < 2:
         return None
@@ -887,7 +897,7 @@ def fam_invalid_nocrash(rng):
     """C12: reading (to_list), copying and measuring an INVALID layout never terminates the process or hangs: any
     outcome but a crash is accepted"""
     lay, what = _gen_invalid(rng)
-    if lay is None:
+    if lay is None or what == "field shorter than the record array":      # KF-C12-record-shorter-field-read
         return None
     op = rng.choice(["tolist", "tolist", "deep_copy", "purelist_depth"])
 
@@ -1040,6 +1050,152 @@ def fam_builder_malformed(rng):
     return Case("builder 8 %s %s" % (" ".join(good), bad), check, {})
 
 
+class _Shim:
+    pass
+
+
+VIRTUAL_SUBFAMILIES = ["tolist", "carry_range", "getitem_basic", "getitem_array", "reduce_ragged", "num", "flatten",
+                       "localindex", "rpad", "sort", "combinations"]
+
+
+def fam_virtual(rng):
+    """C18: a VirtualArray (real VirtualArray + a counting generator + no cache / unbounded cache / a cache that evicts
+    after k hits) gives, for every operation, the value of the materialised array; a first generation that fails
+    surfaces as an exception and the next attempt is correct"""
+    sub = rng.choice(VIRTUAL_SUBFAMILIES)
+    inner = None
+    L.Enc.ALLOW_BITMASK = False          # KF-C18-lazy-slice-bitmasked-form
+    try:
+        for _ in range(10):
+            inner = FAMILIES[sub][0](rng)
+            if inner is not None:
+                break
+    finally:
+        L.Enc.ALLOW_BITMASK = True
+    if inner is None:
+        return None
+    keep = rng.choice([-2, -1, -1, 0, 1, 2])
+    decl_length = rng.choice([-1, -2, -2])
+    decl_form = rng.choice([0, 1, 1])
+    fail_first = 1 if rng.random() < 0.15 else 0
+
+    def check(r):
+        if r.status != "OK":
+            # the inner contract may expect an exception (index out of range)
+            return inner.check(r)
+        if not (isinstance(r.value, tuple) and len(r.value) == 3):
+            return ("value", "unexpected driver payload %r" % (r.raw[:200],))
+        v, calls, first = r.value
+        sh = _Shim()
+        sh.status, sh.value, sh.raw, sh.validity, sh.pure, sh.extra, sh.exc, sh.msg = "OK", v, r.raw, r.validity, r.pure, r.extra, None, ""
+        bad = inner.check(sh)
+        if bad:
+            return (bad[0], "through a VirtualArray (cache mode %d, declared length %d, declared form %d): %s" % (keep, decl_length, decl_form, bad[1]))
+        if fail_first and first == "no-exception" and calls > 0:
+            return ("value", "the first generation failed but the operation did not raise")
+        return None
+    return Case("virtual %d %d %d %d %s" % (keep, decl_length, decl_form, fail_first, inner.line), check, inner.info)
+
+
+def fam_virtual_enforce(rng):
+    """C18: with length and form declared no query of length/depth/form invokes the generator; a generated array that is
+    shorter than the declared length, or of another form than declared, is refused with an error once data are needed"""
+    T = gen_pure(rng, rng.randint(0, 2))
+    vals = [L.gen_value(rng, T) for _ in range(rng.randint(0, 4))]
+    lay = L.Enc(rng).encode(vals, T)
+    keep = rng.choice([-2, -1, 0])
+    mode = rng.choice(["lazy", "short", "form"])
+    if mode == "lazy":
+        def check(r):
+            if r.status != "OK":
+                return ("value", "length/depth/form queries on a VirtualArray with declared length and form: %s" % r)
+            (n, d, mn, mx, calls), total, first = r.value
+            if calls != 0 or total != 0:
+                return ("value", "the generator was invoked %d time(s) by length/depth/form queries although length and form are declared" % total)
+            if n != len(vals) or d != struct_depth(T):
+                return ("value", "declared length/depth read back as %r/%r for %r" % (n, d, vals))
+            return None
+        return Case("virtual %d -2 1 0 lazyquery %s" % (keep, lay.tokens()), check, {"value": vals})
+    if mode == "short" and rng.random() < 0.5:
+        declared = len(vals) + rng.randint(1, 3)
+
+        def check(r):
+            if r.status != "OK":
+                return ("value", "refused generation: %s" % r)
+            raised, hasform, peek = r.value
+            if not raised:
+                return ("value", "a generator returning %d items for a declared length of %d was accepted" % (len(vals), declared))
+            if hasform or peek:
+                return ("value", "a refused generation (too short) left a stale value visible: inferred form %s, cached array %s" % (hasform, peek))
+            return None
+        return Case("staleform %d %s" % (declared, lay.tokens()), check, {"value": vals})
+    if mode == "short":
+        declared = len(vals) + rng.randint(1, 3)
+
+        def check(r):
+            if r.status == "EXC":
+                return None
+            return ("value", "a generator returning %d items for a declared length of %d was accepted: %s" % (len(vals), declared, r))
+        return Case("virtual %d %d 0 0 tolist %s" % (keep, declared, lay.tokens()), check, {"value": vals})
+
+    def check(r):
+        if r.status == "EXC":
+            return None
+        return ("value", "a generated array whose form differs from the declared form was accepted: %s" % r)
+    if isinstance(lay, L.LO) and isinstance(lay.content, L.NP) and lay.content.dtype == "int8" and lay.width == "64":
+        return None
+    return Case("virtual %d -1 2 0 tolist %s" % (keep, lay.tokens()), check, {"value": vals})
+
+
+def fam_partitioned(rng):
+    """C18: an IrregularlyPartitionedArray (any partitioning, empty partitions included) gives for getitem_at,
+    getitem_range (any start/stop/step) and repartition the value of the concatenated array"""
+    T = gen_pure(rng, rng.randint(0, 2))
+    n = rng.randint(0, 8)
+    vals = [L.gen_value(rng, T) for _ in range(n)]
+    lay = L.Enc(rng).encode(vals, T)
+    k = rng.randint(1, 4)
+    stops = sorted(rng.randint(0, n) for _ in range(k - 1)) + [n]
+    head = "partitioned %d %s" % (k, " ".join(map(str, stops)))
+    action = rng.choice(["at", "range", "range", "repartition"])
+    if action == "at":
+        i = rng.randint(-n - 1, n)
+        if -n <= i < n:
+            chk = expect_value(vals[i], "partitioned x[%d] of %r split at %r" % (i, vals, stops), cmp=L.same, want_valid=False)
+        else:
+            def chk(r):
+                return None if r.status == "EXC" else ("value", "x[%d] on a partitioned array of length %d must raise: %s" % (i, n, r))
+        return Case("%s at %d %s" % (head, i, lay.tokens()), chk, {"value": vals})
+    if action == "range":
+        a = rng.choice([None] + list(range(-n - 2, n + 3)))
+        b = rng.choice([None] + list(range(-n - 2, n + 3)))
+        st = rng.choice([1, 1, 1, 2, 3, -1, -2, -3])
+        ref = vals[a:b:st]
+
+        def chk(r):
+            if r.status != "OK":
+                return ("value", "partitioned x[%r:%r:%r] of %r split at %r: %s" % (a, b, st, vals, stops, r))
+            parts, length = r.value
+            flat = [e for p in parts for e in p]
+            if not L.same(flat, ref) or length != len(ref):
+                return ("value", "partitioned x[%r:%r:%r] of %r split at %r: library gives partitions %r (length %r), expected the elements %r" % (a, b, st, vals, stops, parts, length, ref))
+            return None
+        f = lambda x: "_" if x is None else str(x)
+        return Case("%s range %s %s %d %s" % (head, f(a), f(b), st, lay.tokens()), chk, {"value": vals})
+    m = rng.randint(1, 4)
+    nstops = sorted(rng.randint(0, n) for _ in range(m - 1)) + [n]
+
+    def chk(r):
+        if r.status != "OK":
+            return ("value", "repartition(%r) of %r split at %r: %s" % (nstops, vals, stops, r))
+        parts, length = r.value
+        want = [vals[a:b] for a, b in zip([0] + nstops[:-1], nstops)]
+        if not L.same(parts, want) or length != n:
+            return ("value", "repartition(%r) of %r split at %r: library gives %r, expected %r" % (nstops, vals, stops, parts, want))
+        return None
+    return Case("%s repartition %d %s %s" % (head, m, " ".join(map(str, nstops)), lay.tokens()), chk, {"value": vals})
+
+
 # family -> (generator, properties whose statement the VALUE contract comes from)
 FAMILIES = {
     "reduce_ragged": (fam_reduce_ragged, ["C03"]),
@@ -1061,6 +1217,9 @@ FAMILIES = {
     "sort": (fam_sort, ["C06"]),
     "argsort": (fam_argsort, ["C06"]),
     "valid_accept": (fam_valid_accept, ["C11"]),
+    "virtual": (fam_virtual, ["C18"]),
+    "virtual_enforce": (fam_virtual_enforce, ["C18"]),
+    "partitioned": (fam_partitioned, ["C18"]),
     "builder": (fam_builder, ["C14"]),
     "builder_malformed": (fam_builder_malformed, ["C14"]),
     "valid_reject": (fam_valid_reject, ["C11"]),
@@ -1166,17 +1325,27 @@ def engine(pid, tier, seed, known, families=None):
     # recorded known findings: replay each recorded input; still failing -> KNOWN-FINDING (matched by the caller)
     kc = known_cases(known, pid)
     if kc:
-        lines = ["kf%d_%d %s" % (k, i, c["line"]) for k, (f, i, c) in enumerate(kc)]
-        res = nrun.run_cases(lines, asan=False)
+        plain = [(k, f, i, c) for k, (f, i, c) in enumerate(kc) if not c.get("memcheck")]
+        res = nrun.run_cases(["kf%d_%d %s" % (k, i, c["line"]) for k, f, i, c in plain], asan=False) if plain else {}
         for k, (f, i, c) in enumerate(kc):
-            r = res["kf%d_%d" % (k, i)]
-            exp = eval(c["expect"], dict(nrun.ENV))
-            good = r.status == "OK" and loose(r.value, exp) and ("extra" not in c or r.extra == c["extra"])
+            if c.get("memcheck"):
+                # a read/write outside the buffers that does not crash: observed with valgrind memcheck on the real build
+                try:
+                    bad, so, se = nrun.run_memcheck("kf %s" % c["line"])
+                except Exception as e:
+                    out["errors"].append("valgrind replay of %s failed: %s" % (f["id"], e))
+                    continue
+                good, shown = (not bad), "valgrind memcheck: %s" % (se[-400:] if bad else "no error")
+            else:
+                r = res["kf%d_%d" % (k, i)]
+                exp = eval(c["expect"], dict(nrun.ENV))
+                good = r.status == "OK" and loose(r.value, exp) and ("extra" not in c or r.extra == c["extra"])
+                shown = str(r)[:300]
             if not good:
                 oid = "N.known:%s#%d" % (f["id"], i)
                 out["obligations"].append({"id": oid, "unit": "known:" + f["id"], "kind": "N.known", "label": "bounded", "line": None,
-                                           "desc": "recorded input of %s: `%s` gives %s, the property requires %s" % (f["id"], c["line"], str(r)[:300], c["expect"]),
-                                           "status": "refuted", "time": 0.0, "backend": "native", "model": str(r)[:1000], "auto": False})
+                                           "desc": "recorded input of %s: `%s` gives %s, the property requires %s" % (f["id"], c["line"], shown, c.get("expect", "no access outside the buffers")),
+                                           "status": "refuted", "time": 0.0, "backend": "native", "model": shown[:1000], "auto": False})
                 out["replay"][oid] = {"input": c["line"], "engine": "N", "driver_line": "x " + c["line"]}
     out["coverage"]["engine_N_wall_s"] = round(time.time() - t0, 1)
     out["coverage"]["engine_N_families"] = {f: results[f][0] for f in fams}
